@@ -260,6 +260,40 @@ def parse_assumptions(vfile: Path, output: str) -> dict[str, list[str]]:
     return dict(zip(names, blocks))
 
 
+
+MAX_COQC = int(os.environ.get("VERIF_MAX_COQC", "12"))
+
+
+def _run_capped(jobs, cwd, cap: int | None = None):
+    """Run the (key..., cmd) jobs with at most `cap` processes alive; yields (s, idxs, f, proc, output) in job order."""
+    cap = cap or MAX_COQC
+    import tempfile
+    running, results, it = [], {}, iter(enumerate(jobs))
+    pending = True
+    while pending or running:
+        while pending and len(running) < cap:
+            try:
+                k, (s, idxs, f, cmd) = next(it)
+            except StopIteration:
+                pending = False
+                break
+            out = tempfile.TemporaryFile(mode="w+")
+            running.append((k, s, idxs, f, subprocess.Popen(cmd, cwd=cwd, stdout=out, stderr=subprocess.STDOUT, text=True), out))
+        still = []
+        for k, s, idxs, f, p, out in running:
+            if p.poll() is None:
+                still.append((k, s, idxs, f, p, out))
+            else:
+                out.seek(0)
+                results[k] = (s, idxs, f, p, out.read())
+                out.close()
+        running = still
+        if running:
+            time.sleep(0.05)
+    for k in sorted(results):
+        yield results[k]
+
+
 # --------------------------------------------------------------------------- known findings
 
 
@@ -464,18 +498,17 @@ class Run:
         rounds = 0
         while pending and rounds < 6:
             rounds += 1
-            procs = []
+            jobs = []
             for s, idxs in pending:
                 f = TMP / f"lem_{self.prop}_{name}_{s}.v"
                 lines = [header]
                 for i in idxs:
                     lines.append(f"Lemma case_{i} : {lemmas[i]}.\nProof. {tactic} Qed.")
                 f.write_text("\n".join(lines) + "\n")
-                cmd = ["timeout", "900", "coqc"] + COQ_FLAGS + [str(f)]
-                procs.append((s, idxs, f, subprocess.Popen(cmd, cwd=COQ, stdout=subprocess.PIPE, stderr=subprocess.STDOUT, text=True)))
+                jobs.append((s, idxs, f, ["timeout", "900", "coqc"] + COQ_FLAGS + [str(f)]))
             nxt = []
-            for s, idxs, f, p in procs:
-                out, _ = p.communicate()
+            # at most MAX_COQC coqc processes at a time (each holds up to ~1 GB with Coq-Interval loaded)
+            for s, idxs, f, p, out in _run_capped(jobs, COQ):
                 if p.returncode != 0:
                     m = re.search(r'line (\d+), characters', out)
                     if not m:
